@@ -195,6 +195,20 @@ def shape_module(rng):
         if si and rng.random() < 0.5 and not params:
             pass
         lines.append("")
+    # declaration order is free: chains of virtual fields written top-down (each mentions something declared LATER),
+    # ending in a writable physical field, a non-invertible expression, a constant or a parameter
+    if rng.random() < 0.6:
+        lines.append("struct Order(qq: UInt:8):")
+        k = 0
+        for _c in range(rng.randint(1, 3)):
+            depth = rng.randint(1, 3)
+            names = ["ch%d_%d" % (k, j) for j in range(depth + 1)]
+            k += 1
+            for j in range(depth):
+                form = rng.choice(["%s", "%s + 1", "%s - 3", "7 - %s", "2 + %s", "(%s - 1) + 4"])
+                lines.append("  let %s = %s" % (names[j], form % names[j + 1]))
+            lines.append("  let %s = %s" % (names[depth], rng.choice(["raw", "raw", "raw * 2", "raw + raw", "9", "qq", "$max(raw, 3)"])))
+        lines += ["  0 [+1]  UInt  raw", ""]
     # an empty struct and a struct holding the others
     lines += ["struct Empty:", "  -- nothing here", ""]
     return "\n".join(lines) + "\n"
